@@ -54,6 +54,20 @@ REFUTED_WITNESSES = [
     ("glob.match", "[!]a]", "/x", False, True),
     ("glob.match", "*", "/", True, False),              # the root matched by '*'
 ]
+# the deviations among them that the main comparison of h_glob.py does not reach (its pattern alphabet has no
+# such classes): reported as KNOWN-FINDING (known_findings.json) while they reproduce
+WITNESS_FINDINGS = {
+    ("a[+-a]b", "/a/b"): "glob: a class range spanning '/' matches the separator",
+    ("[!-a]", "/0"): "glob: negated class beginning with '-' or ']' is mistranslated ('/' inserted after '^')",
+    ("[!-a]", "/-"): "glob: negated class beginning with '-' or ']' is mistranslated ('/' inserted after '^')",
+    ("[!]a]", "/xa]"): "glob: negated class beginning with '-' or ']' is mistranslated ('/' inserted after '^')",
+    ("[!]a]", "/x"): "glob: negated class beginning with '-' or ']' is mistranslated ('/' inserted after '^')",
+    ("*", "/"): "glob: '*' matches the root path",
+}
+# match() raising re.error (the Coq model: re_compiles = false, Example wild_bad_range_raises / glob_neg_rb_raises)
+RAISING_WITNESSES = [("wildcard.match", "[z-a]", "b"), ("glob.match", "[z-a]", "/b"), ("glob.match", "[!](]", "/x"),
+                     ("glob.match", "[!-!]", "/b")]
+RAISING_FINDING = "wildcard/glob: a descending range or a cut-short class makes match() raise re.error"
 
 
 def r_lv_text(v):
@@ -540,6 +554,36 @@ def run_translate_checks(report, rnd, tier):
         if got != impl_expected or model != "ok:S" + common.r_bool(impl_expected):
             bad_m.append(dict(function=fn, pattern=p, subject=s, implementation=got, model=model,
                               line="refuted witness of TranslateProofs.v: expected %r" % impl_expected))
+        elif (p, s) in WITNESS_FINDINGS:
+            sig = WITNESS_FINDINGS[(p, s)]
+            known = report.known_match(sig)
+            if known:
+                report.known_finding(known, example=dict(function=fn, pattern=p, subject=s, implementation=got,
+                                                         specification=spec_says))
+            else:
+                report.violation(dict(kind="does-not-follow-shell-semantics", part="refuted-witness", function=fn,
+                                      pattern=p, subject=s, implementation=got, reference=spec_says,
+                                      theorem="Glob/TranslateProofs.v (_refuted examples)"))
+    import re as _re
+    import fs.wildcard as W
+    for fn, p, s in RAISING_WITNESSES:
+        import fs.glob as G
+        n_w += 1
+        try:
+            with warnings.catch_warnings():
+                warnings.simplefilter("ignore")
+                (W.match if fn.startswith("wildcard") else G.match)(p, s)
+            raised = False
+        except _re.error:
+            raised = True
+        if raised:
+            known = report.known_match(RAISING_FINDING)
+            if known:
+                report.known_finding(known, example=dict(function=fn, pattern=p, subject=s))
+            else:
+                report.violation(dict(kind="does-not-follow-shell-semantics", part="refuted-witness", function=fn,
+                                      pattern=p, subject=s, implementation="raises re.error",
+                                      reference="a result", theorem="Glob/TranslateProofs.v (*_raises examples)"))
     # (c)
     thm = "Glob/TranslateProofs.v (wild_translate_render, glob_translate_glob_render, wild_regex_correct, glob_regex_correct)"
     report_all(report, [("regex-text", bad_text), ("compiled-regex-text", bad_comp),
